@@ -432,6 +432,7 @@ class Facts:
         for b in j["bodies"]:
             self.bodies[b["key"]] = Body(b, self)
         self._resolve_into_calls()
+        self._rewrite_inplace_twins()
         self.adts = {a["path"]: a for a in j["adts"]}
         self.consts = {c["key"]: c for c in j["consts"]}
         self.unsafe_blocks = j["unsafe_blocks"]
@@ -462,6 +463,98 @@ class Facts:
                     t["fn"] = {"path": "std::convert::From::from", "name": "from", "local": False, "krate": "core", "gargs": [U, T],
                                "trait": "std::convert::From", "self_ty": U, "self_adt": head(U), "resolved": c[0].key, "resolved_key": c[0].key,
                                "via_into": True}
+
+    def _rewrite_inplace_twins(self):
+        """an operator implemented through an in-place helper — `impl Mul<M> for &T { fn mul(self, mut rhs: M) -> M {
+        self.scale_in_place(&mut rhs); rhs } }` — makes `t.scale_in_place(&mut x)` the in-place spelling of `x = &t * x`.
+        Calls of such a helper (outside the operator itself) are presented as the operator call assigning to the lent place, so
+        that the rules see one construct for both spellings. The helper's own body is still analysed where the operator is."""
+        twins = {}
+        for k, b in self.bodies.items():
+            im = b.j.get("impl", {})
+            if b.kind == "Closure" or not im.get("trait", "").startswith("std::ops::") or not k.startswith("<&") or b.arg_count != 2:
+                continue
+            calls = [(bi, t) for bi, t in enumerate(x["term"] for x in b.j["blocks"]) if t.get("k") == "call" and "fn" in t]
+            live_calls = [(bi, t) for bi, t in calls if not b.j["blocks"][bi].get("cleanup")]
+            if len(live_calls) != 1:
+                continue
+            bi, t = live_calls[0]
+            g = t["fn"].get("resolved_key") or t["fn"].get("key")
+            if g not in self.bodies or len(t["args"]) != 2 or self.bodies[g].kind == "Closure":
+                continue
+            # second argument: a (re)borrow `&mut _2`; the operator returns `_2`
+            lent = self._lent_place(b.j, t["args"][1])
+            if lent is None or lent["l"] != 2 or lent["proj"]:
+                continue
+            rets = [s_ for x in b.j["blocks"] if not x.get("cleanup") for s_ in x["stmts"] if s_["k"] == "assign" and s_["place"]["l"] == 0 and not s_["place"]["proj"]]
+            if len(rets) != 1 or rets[0]["rv"]["k"] != "use" or rets[0]["rv"]["op"].get("k") != "move" or rets[0]["rv"]["op"]["place"] != {"l": 2, "proj": []}:
+                continue
+            if g in twins:
+                twins[g] = None     # ambiguous
+            else:
+                twins[g] = (k, b, t["fn"])
+        self.inplace_twins = {g: v[0] for g, v in twins.items() if v}
+        for g, v in twins.items():
+            if not v:
+                continue
+            opkey, opb, gfn = v
+            im = opb.j["impl"]
+            tr = im["trait"].split("<", 1)[0]
+            opfn = {"path": tr + "::" + (opb.j.get("name") or "mul"), "name": opb.j.get("name") or "mul", "local": False, "krate": "core",
+                    "trait": tr, "self_ty": im.get("self_ty"), "self_adt": im.get("self_adt"), "resolved": opkey, "resolved_key": opkey,
+                    "gargs": [], "via_inplace_twin": g}
+            for k, b in self.bodies.items():
+                if k == opkey:
+                    continue
+                for blk in b.j["blocks"]:
+                    t = blk["term"]
+                    if t.get("k") != "call" or "fn" not in t or (t["fn"].get("resolved_key") or t["fn"].get("key")) != g or len(t["args"]) != 2:
+                        continue
+                    chain = []
+                    lent = self._lent_place(b.j, t["args"][1], 0, chain)
+                    if lent is None:
+                        continue
+                    for st_ in chain:
+                        # the `&mut` temporaries only existed to lend the place to the helper
+                        st_.clear()
+                        st_["k"] = "nop"
+                    nt = dict(t)
+                    nt["fn"] = opfn
+                    nt["args"] = [t["args"][0], {"k": "move", "place": lent}]
+                    nt["dest"] = lent
+                    nt["inplace_of"] = g
+                    blk["term"] = nt
+        if self.inplace_twins:
+            for b in self.bodies.values():
+                b.__dict__.pop("_cfg", None)
+
+    @staticmethod
+    def _lent_place(j, op, depth=0, chain=None):
+        """the place behind a `&mut` temporary passed as an argument (through reborrows and moves of the temporary); the
+        statements that define the temporaries are appended to `chain`"""
+        if chain is None:
+            chain = []
+        if depth > 4 or op.get("k") not in ("move", "copy") or op["place"]["proj"]:
+            return None
+        tl = op["place"]["l"]
+        defs = [s_ for x in j["blocks"] for s_ in x["stmts"] if s_["k"] == "assign" and s_["place"]["l"] == tl and not s_["place"]["proj"]]
+        if len(defs) != 1:
+            # a `&mut` parameter handed on as is: the place is its referent
+            if not defs and 1 <= tl <= j.get("arg_count", 0):
+                return {"l": tl, "proj": [{"k": "deref"}]}
+            return None
+        rv = defs[0]["rv"]
+        if rv["k"] == "ref" and rv.get("mut"):
+            p = rv["place"]
+            chain.append(defs[0])
+            if len(p["proj"]) == 1 and p["proj"][0]["k"] == "deref":
+                inner = Facts._lent_place(j, {"k": "move", "place": {"l": p["l"], "proj": []}}, depth + 1, chain)
+                return inner if inner is not None else p
+            return p
+        if rv["k"] == "use" and rv["op"].get("k") in ("move", "copy"):
+            chain.append(defs[0])
+            return Facts._lent_place(j, rv["op"], depth + 1, chain)
+        return None
 
     def find(self, pred):
         return [b for b in self.bodies.values() if pred(b)]
